@@ -1,6 +1,7 @@
 package thriftw
 
 import (
+	"bytes"
 	"fmt"
 	"hash/crc32"
 	"runtime"
@@ -9,9 +10,11 @@ import (
 	"sync"
 	"sync/atomic"
 	"testing"
+	"time"
 
 	erpc "github.com/henrylee2cn/erpc/v6"
 	"github.com/henrylee2cn/erpc/v6/proto/thriftproto"
+	"github.com/henrylee2cn/erpc/v6/socket"
 	"pgregory.net/rapid"
 
 	"verifharness/vt"
@@ -239,4 +242,107 @@ func TestC01ThriftSessions(t *testing.T) {
 			t.Fatalf("C01 violated over %s: %s", proto.Name, errs[0])
 		}
 	})
+}
+
+// TestC20FailedSends: a message that could not be sent (here: over the configured size limit)
+// leaves nothing behind in the session's send path - whatever the protocol buffers per
+// connection (the websocket mixer's frame buffer, the thrift header transport) is as clean for
+// the next message as on a fresh session.
+func TestC20FailedSends(t *testing.T) {
+	rec := vt.NewRec(t, "C20", "failed-sends", "one session over thrift-binary / thrift-struct, directly or as sub-protocol of the websocket mixer, under an 8 KiB message size limit; 3-8 sequential calls of which some carry a 16 KiB argument (refused locally or by the receiver) or ask for a 16 KiB result (the reply is refused on the serving side); oracle: every ordinary call after a refused one completes OK with its own result on the same session (or the session was closed by the refusal and a new session works); non-trivial = an ordinary call follows a refused one; distinct by case")
+	rapid.Check(t, func(t *rapid.T) {
+		vt.Init()
+		structProto := rapid.Bool().Draw(t, "structproto")
+		overWS := rapid.Bool().Draw(t, "websocket")
+		proto := vt.NamedProto{Name: "thrift-binary", Fn: thriftproto.NewBinaryProtoFunc()}
+		if structProto {
+			proto = vt.NamedProto{Name: "thrift-struct", Fn: thriftproto.NewStructProtoFunc()}
+		}
+		n := rapid.IntRange(3, 8).Draw(t, "ops")
+		ops := make([]string, n)
+		nt, sawBig := false, false
+		for i := range ops {
+			ops[i] = rapid.SampledFrom([]string{"ok", "ok", "bigarg", "bigresult"}).Draw(t, "op")
+			if ops[i] == "ok" && sawBig {
+				nt = true
+			}
+			if ops[i] != "ok" {
+				sawBig = true
+			}
+		}
+		rec.Case(fmt.Sprintf("%s|%v|%v", proto.Name, overWS, ops), nt, "proto="+proto.Name, fmt.Sprintf("websocket=%v", overWS))
+		if rec.WantSample() && nt {
+			rec.Sample(map[string]interface{}{"proto": proto.Name, "websocket": overWS, "ops": ops})
+		}
+		st := &tstate{pushes: map[string]int{}}
+		tcur.Store(st)
+		socket.SetMessageSizeLimit(8 << 10)
+		defer socket.SetMessageSizeLimit(0)
+		w := vt.NewWorld()
+		defer w.Close()
+		a, b := w.Peer(erpc.PeerConfig{}), w.Peer(erpc.PeerConfig{})
+		route := b.RouteCallFunc(TC20Echo)
+		connect := func() *vt.Link {
+			if overWS {
+				l, err := w.ConnectWS(a, b, proto, nil)
+				if err != nil {
+					t.Fatalf("websocket connect: %v", err)
+				}
+				return l
+			}
+			return w.Connect(a, b, proto, nil)
+		}
+		l := connect()
+		if l.A == nil || l.B == nil {
+			t.Fatalf("connect failed")
+		}
+		afterRefusal := false
+		for i, op := range ops {
+			arg := &vt.TStruct{S: fmt.Sprintf("a%d", i), I: int64(i)}
+			switch op {
+			case "bigarg":
+				arg.B = bytes.Repeat([]byte{'x'}, 16<<10)
+			case "bigresult":
+				arg.I32 = 16 << 10
+			}
+			res := new(vt.TStruct)
+			var cmd erpc.CallCmd
+			if !vt.Returns(func() { cmd = l.A.Call(route, arg, res) }) {
+				t.Fatalf("%s", vt.Hang(fmt.Sprintf("return of call %d (%s)", i, op)))
+			}
+			if op != "ok" {
+				afterRefusal = true
+				if cmd.StatusOK() {
+					t.Fatalf("harness: call %d (%s) was expected to be refused under the 8 KiB limit", i, op)
+				}
+				continue
+			}
+			// Directly over a thrift protocol the over-limit frame has already been flushed to the
+			// connection when the size check refuses it, so the receiver ends the session. Under the
+			// websocket mixer the sub-protocol packs into the connection's frame buffer, and a refused
+			// message is never transmitted: the session goes on.
+			if !cmd.StatusOK() && afterRefusal && !overWS && vt.WaitUntilFor(2*time.Second, func() bool { return !l.A.Health() }) {
+				// the refusal ended the session (e.g. the receiver disconnects on an over-limit frame): a new one works
+				l = connect()
+				if l.A == nil || l.B == nil {
+					t.Fatalf("re-connect failed")
+				}
+				afterRefusal = false
+				res = new(vt.TStruct)
+				cmd = l.A.Call(route, arg, res)
+			}
+			if !cmd.StatusOK() || res.S != "R:"+arg.S || res.I != arg.I+1 {
+				t.Fatalf("C20 violated: %s (websocket: %v): ordinary call %d after ops %v completed with %v / result %v (session healthy: %v) - an earlier refused message left something behind", proto.Name, overWS, i, ops[:i], cmd.Status(), res, l.A.Health())
+			}
+		}
+	})
+}
+
+// TC20Echo echoes, optionally with a result of the requested size.
+func TC20Echo(ctx erpc.CallCtx, a *vt.TStruct) (*vt.TStruct, *erpc.Status) {
+	r := &vt.TStruct{S: "R:" + a.S, I: a.I + 1}
+	if a.I32 > 0 {
+		r.B = bytes.Repeat([]byte{'y'}, int(a.I32))
+	}
+	return r, nil
 }
